@@ -324,6 +324,14 @@ def r6_address_advance(ctx: Ctx) -> None:
     r5_formula_normal_form(ctx)
 
 
+def r7_incbin_symbols(ctx: Ctx) -> None:
+    """`position-derived symbols (.incbin start symbols ...)`: the start symbol is the address BEFORE the file's bytes, the size symbol
+    the number of bytes (shared with C07.R4)"""
+    from .c07 import binary_symbols
+
+    binary_symbols(ctx)
+
+
 def rb_binding_agreement(ctx: Ctx) -> None:
     from ..ownership import binding_agreement
 
@@ -344,4 +352,4 @@ def ru_names_bound(ctx: Ctx) -> None:
     names_rule(ctx)
 
 
-RULES = [r1_per_class_length_agreement, r2_opcode_emitters, r3_traversal_agreement, r4_state_dependent_width_rechecked, r5_position_bookkeeping, r6_address_advance, rb_binding_agreement, rm_no_process_lifetime_results, ru_names_bound]
+RULES = [r1_per_class_length_agreement, r2_opcode_emitters, r3_traversal_agreement, r4_state_dependent_width_rechecked, r5_position_bookkeeping, r6_address_advance, r7_incbin_symbols, rb_binding_agreement, rm_no_process_lifetime_results, ru_names_bound]
